@@ -12,6 +12,18 @@ package middlewares
 //@        && !q.Has("acl") && !q.Has("tagging") && !q.Has("versioning") && !q.Has("policy") && !q.Has("object-lock") \
 //@        && !q.Has("ownershipControls") && !q.Has("cors") :: requires !readonly
 
+// ---- C20: the handlers read the bucket ACL from the request locals without a test; it is installed before every request
+// that is passed on, except for the three shapes that have no bucket ACL to load: the list of buckets, the admin API, and
+// the creation of a bucket (PUT on a single path segment without a bucket sub-resource — the shape of the C15 clause) ----
+//@ func AclParser$1
+//@   let q = ctx.Request().URI().QueryArgs()
+//@   at-call fiber.Ctx.Next {C20} [the-bucket-acl-is-installed-for-every-request-that-has-one] requires \
+//@        (called("auth.ParseACL") && arg("fiber.Ctx.Locals", 1) == iface("parsedAcl") && len(arg("fiber.Ctx.Locals", 2)) == 1) \
+//@        || (ctx.Path() == "/" && ctx.Method() == "GET") || ctx.Method() == "PATCH" \
+//@        || (singlePath.MatchString(ctx.Path()) && ctx.Method() == "PUT" \
+//@            && !q.Has("acl") && !q.Has("tagging") && !q.Has("versioning") && !q.Has("policy") && !q.Has("object-lock") \
+//@            && !q.Has("ownershipControls") && !q.Has("cors"))
+
 // ---- C02: no handler runs before the request is authenticated -------------------------------
 // ctx.Next() is reached only when (a) the presigned middleware already authenticated the request,
 // (b) the request is a streaming upload and the reader that verifies the signature at end of stream
